@@ -98,6 +98,11 @@ pub fn body_menu(full: bool) -> Vec<L> {
         v.push(L::ErrorCode(300, "a".into()));
         v.push(L::ErrorCode(300, "ab".into()));
         v.push(L::ErrorCode(300, "abc".into()));
+        // reason phrases ending in / consisting of white space, of every length modulo 4 (a phrase is text up to the attribute
+        // length - nothing in it is padding)
+        for r in ["Try ", "abc ", "abcdefg ", "    ", "a   ", "ab  ", "a ", "ab ", "abcd ", " x", "x\t", "abc\u{a0}"] {
+            v.push(L::ErrorCode(300, r.into()));
+        }
     }
     // NONCE (quoted-string grammar)
     for s in strings_quoted(full, 509, true) {
